@@ -176,6 +176,16 @@ def diameter(role="CLIENT", napps=1, watchdog=3):
     return _DIAMETERS[key]
 
 
+def _forget_identifiers():
+    """the process-wide identifier registries only ever grow (linear membership tests): a harness that builds thousands of
+    nodes in one process empties them between nodes - identifiers of different harness runs never meet"""
+    from bromelia.base import DiameterRequest
+    for name in ("hop_by_hop_identifiers", "end_to_end_identifiers"):
+        reg = getattr(DiameterRequest, name, None)
+        if isinstance(reg, list):
+            del reg[:]
+
+
 class Node:
     """a Diameter node object with a fresh association on a stand-in transport, tickable one state-machine step at a time"""
 
@@ -184,6 +194,7 @@ class Node:
             self.d = reuse.d                                  # the same node object started again: templates survive
         else:
             self.d = diameter(role, napps, watchdog)
+            _forget_identifiers()
             self.d._base = self.d.get_base_messages()        # fresh shared base-message objects
         self.assoc = S.DiameterAssociation(self.d._connection, self.d._base)
         cls = T.TcpClient if role == "CLIENT" else T.TcpServer
@@ -236,5 +247,8 @@ class Node:
     def handed(self):
         """byte stream currently attached to the selector registration (what the state machine handed over)"""
         for sock, mask, data in self.sel.reg.values():
-            return data
-        return None
+            if data is not None:
+                return data                       # trees that attach the stream to the selector key
+        t = self.transport
+        pending = bytes(t._send_buffer) + bytes(t.data_stream)     # trees that queue it in the transport
+        return pending or None
